@@ -34,7 +34,9 @@ REQS = [{"path": "/ok", "accept_encoding": "gzip"}, {"path": "/small", "accept_e
         {"path": "/ok", "method": "HEAD", "accept_encoding": "gzip"},
         {"path": "/ok", "accept_encoding": "gzip;q=0"}, {"path": "/ok", "accept_encoding": "identity, gzip;q=0"},
         {"path": "/ok", "accept_encoding": "*;q=0"}, {"path": "/ok", "accept_encoding": "deflate, gzip;q=0.5"},
-        {"path": "/return_big_http", "accept_encoding": "gzip"}, {"path": "/noct"}]
+        {"path": "/return_big_http", "accept_encoding": "gzip"}, {"path": "/noct"},
+        {"path": "/ok", "cookie": "clastic_cookie=a?b"}, {"path": "/nope", "cookie": "clastic_cookie=a=b?c=d"},
+        {"path": "/ok", "cookie": "clastic_cookie=x"}, {"path": "/ok", "query": "_prof_sort=bogus"}]
 NATIVE = {'compress': 'gzip', 'client_cache': 'cache', 'stats': 'stats', 'profile': 'profile', 'cookie': 'cookie',
           'url.GetParam': 'getparam', 'form': 'postdata', 'url.ScriptRoot': 'scriptroot'}
 
